@@ -1,4 +1,5 @@
 import Proofs.BellmanLemmas
+import Proofs.BellmanGenEq
 
 /-!
 # C08 — value-based learning uses the Bellman target and really tracks its target network
@@ -16,6 +17,10 @@ target-policy noise are *inputs*; the theorems are about what the learners compu
   is a multiple of `policy_freq` (`C08_delay_schedule`).
 
 Everything is over exact rationals, for all batches / weight vectors / step counts.
+
+`C08_source_translation_*` (last section): the same statements over the definitions that
+`harness/py2lean_bellman.py` generates on every run from the SOURCE TEXT of the seven learners
+(`Gen/BellmanGen.lean`; equalities with this model in `Proofs/BellmanGenEq.lean`).
 -/
 namespace Bellman
 
@@ -303,5 +308,267 @@ example : blend 1 [1, 2] [5, 6] = [1, 2] := by decide +kernel
 example : sched 3 0 7 = [false, false, true, false, false, true, false] := by decide +kernel
 example : (runTargets 2 (1/2) 0 [[0], [0], [0], [0]] [8]).2 = [2] := by decide +kernel
 example : (runTargets 1 (1/2) 0 [[0], [0], [0], [0]] [8]).2 = [1/2] := by decide +kernel
+
+/-! ## source translation: the theorems over the definitions generated from /repo's source text
+
+`BellmanGen.<Learner>.{soft_update, updates_on, learn_nets, target, pred}` are generated from
+`agilerl/algorithms/{dqn,cqn,dqn_rainbow,ddpg,td3,maddpg,matd3}.py` on every run.  The inputs of
+`target` are passed by the NAMES the translator derives from the source (which network, evaluated on
+what), so these statements also pin that the bootstrap value comes from the TARGET network(s) at
+the NEXT observation. -/
+
+open BellmanGen in
+/-- in the source of every learner the Bellman target of a row marked done is its reward, whatever
+    the networks say about the next observation (DQN / CQN plain and double, DDPG, TD3, and per
+    agent MADDPG, MATD3) -/
+theorem C08_source_translation_done_masks_next (γ r : Rat) :
+    (∀ dbl on tg on' tg',
+      DQN.target (self_double := dbl) (self_gamma := γ) (reward := r) (done := 1)
+        (actor_of_next_obs := on) (actor_target_of_next_obs := tg) = r ∧
+      DQN.target (self_double := dbl) (self_gamma := γ) (reward := r) (done := 1)
+        (actor_of_next_obs := on) (actor_target_of_next_obs := tg) =
+      DQN.target (self_double := dbl) (self_gamma := γ) (reward := r) (done := 1)
+        (actor_of_next_obs := on') (actor_target_of_next_obs := tg')) ∧
+    (∀ dbl on tg on' tg',
+      CQN.target (self_double := dbl) (self_gamma := γ) (reward := r) (done := 1)
+        (actor_of_next_obs := on) (actor_target_of_next_obs := tg) = r ∧
+      CQN.target (self_double := dbl) (self_gamma := γ) (reward := r) (done := 1)
+        (actor_of_next_obs := on) (actor_target_of_next_obs := tg) =
+      CQN.target (self_double := dbl) (self_gamma := γ) (reward := r) (done := 1)
+        (actor_of_next_obs := on') (actor_target_of_next_obs := tg')) ∧
+    (∀ q q',
+      DDPG.target (self_gamma := γ) (reward := r) (done := 1)
+        (critic_target_of_actor_target_next_obs := q) = r ∧
+      DDPG.target (self_gamma := γ) (reward := r) (done := 1)
+        (critic_target_of_actor_target_next_obs := q) =
+      DDPG.target (self_gamma := γ) (reward := r) (done := 1)
+        (critic_target_of_actor_target_next_obs := q')) ∧
+    (∀ n1 n2 n1' n2',
+      TD3.target (self_gamma := γ) (reward := r) (done := 1)
+        (critic_target_1_of_actor_target_next_obs := n1)
+        (critic_target_2_of_actor_target_next_obs := n2) = r ∧
+      TD3.target (self_gamma := γ) (reward := r) (done := 1)
+        (critic_target_1_of_actor_target_next_obs := n1)
+        (critic_target_2_of_actor_target_next_obs := n2) =
+      TD3.target (self_gamma := γ) (reward := r) (done := 1)
+        (critic_target_1_of_actor_target_next_obs := n1')
+        (critic_target_2_of_actor_target_next_obs := n2')) ∧
+    (∀ q q',
+      MADDPG.target (self_gamma := γ) (reward_i := r) (done_i := 1)
+        (critic_targets_i_of_actor_targets_next_obs := q) = r ∧
+      MADDPG.target (self_gamma := γ) (reward_i := r) (done_i := 1)
+        (critic_targets_i_of_actor_targets_next_obs := q) =
+      MADDPG.target (self_gamma := γ) (reward_i := r) (done_i := 1)
+        (critic_targets_i_of_actor_targets_next_obs := q')) ∧
+    (∀ n1 n2 n1' n2',
+      MATD3.target (self_gamma := γ) (reward_i := r) (done_i := 1)
+        (critic_targets_1_i_of_actor_targets_next_obs := n1)
+        (critic_targets_2_i_of_actor_targets_next_obs := n2) = r ∧
+      MATD3.target (self_gamma := γ) (reward_i := r) (done_i := 1)
+        (critic_targets_1_i_of_actor_targets_next_obs := n1)
+        (critic_targets_2_i_of_actor_targets_next_obs := n2) =
+      MATD3.target (self_gamma := γ) (reward_i := r) (done_i := 1)
+        (critic_targets_1_i_of_actor_targets_next_obs := n1')
+        (critic_targets_2_i_of_actor_targets_next_obs := n2')) := by
+  refine ⟨?_, ?_, ?_, ?_, ?_, ?_⟩ <;> intros <;>
+    simp only [gen_dqn_target_eq, gen_cqn_target_eq, gen_ddpg_target_eq, gen_td3_target_eq,
+      gen_maddpg_target_eq, gen_matd3_target_eq, y_done, and_self]
+
+open BellmanGen in
+/-- the target the source of each learner hands to its loss IS the Bellman target
+    `r + γ(1−d)·q'`, with `q'` = the greatest target-network value (DQN / CQN), the target
+    network's value at the online network's first greedy action (double), the target critic's
+    value (DDPG; MADDPG per agent with ITS reward and done flag), the smaller of the twin target
+    critics (TD3; MATD3 per agent); and the prediction it is compared with is the ONLINE
+    network's value (at the action taken for DQN / CQN) -/
+theorem C08_source_translation_target_is_bellman (γ r d : Rat) :
+    (∀ on tg,
+      DQN.target (self_double := false) (self_gamma := γ) (reward := r) (done := d)
+        (actor_of_next_obs := on) (actor_target_of_next_obs := tg) = r + γ * (1 - d) * maxL tg ∧
+      DQN.target (self_double := true) (self_gamma := γ) (reward := r) (done := d)
+        (actor_of_next_obs := on) (actor_target_of_next_obs := tg)
+          = r + γ * (1 - d) * gather tg (argmaxL on) ∧
+      CQN.target (self_double := false) (self_gamma := γ) (reward := r) (done := d)
+        (actor_of_next_obs := on) (actor_target_of_next_obs := tg) = r + γ * (1 - d) * maxL tg ∧
+      CQN.target (self_double := true) (self_gamma := γ) (reward := r) (done := d)
+        (actor_of_next_obs := on) (actor_target_of_next_obs := tg)
+          = r + γ * (1 - d) * gather tg (argmaxL on)) ∧
+    (∀ q',
+      DDPG.target (self_gamma := γ) (reward := r) (done := d)
+        (critic_target_of_actor_target_next_obs := q') = r + γ * (1 - d) * q' ∧
+      MADDPG.target (self_gamma := γ) (reward_i := r) (done_i := d)
+        (critic_targets_i_of_actor_targets_next_obs := q') = r + γ * (1 - d) * q') ∧
+    (∀ n1 n2,
+      TD3.target (self_gamma := γ) (reward := r) (done := d)
+        (critic_target_1_of_actor_target_next_obs := n1)
+        (critic_target_2_of_actor_target_next_obs := n2) = r + γ * (1 - d) * rmin n1 n2 ∧
+      MATD3.target (self_gamma := γ) (reward_i := r) (done_i := d)
+        (critic_targets_1_i_of_actor_targets_next_obs := n1)
+        (critic_targets_2_i_of_actor_targets_next_obs := n2) = r + γ * (1 - d) * rmin n1 n2) ∧
+    (∀ (a : Rat) (q : List Rat),
+      DQN.pred (action := a) (actor_of_obs := q) = gather q a.floor.toNat ∧
+      CQN.pred (action := a) (actor_of_obs := q) = gather q a.floor.toNat) ∧
+    (∀ q : Rat,
+      DDPG.pred (critic_of_action_obs := q) = q ∧ TD3.pred (critic_1_of_action_obs := q) = q ∧
+      TD3.pred1 (critic_2_of_action_obs := q) = q ∧ MADDPG.pred (critics_i_of_action_obs := q) = q ∧
+      MATD3.pred (critics_1_i_of_action_obs := q) = q ∧
+      MATD3.pred1 (critics_2_i_of_action_obs := q) = q) := by
+  refine ⟨?_, ?_, ?_, ?_, fun q => ⟨gen_ddpg_pred_eq q, (gen_td3_pred_eq q q).1, (gen_td3_pred_eq q q).2,
+    gen_maddpg_pred_eq q, (gen_matd3_pred_eq q q).1, (gen_matd3_pred_eq q q).2⟩⟩ <;> intros <;>
+    simp only [gen_dqn_target_eq, gen_cqn_target_eq, gen_ddpg_target_eq, gen_td3_target_eq,
+      gen_maddpg_target_eq, gen_matd3_target_eq, gen_dqn_pred_eq, gen_cqn_pred_eq,
+      y, if_true, if_false, Bool.false_eq_true, and_self]
+
+open BellmanGen in
+/-- `soft_update` in the source of all seven learners: the network handed in (zipped) first is
+    only read, every weight of the second becomes `τ·first + (1−τ)·previous` (equal numbers of
+    weights; otherwise the weights the zip does not reach stay), position by position -/
+theorem C08_source_translation_soft_update (τ : Rat) (θ θt : List Rat) (h : θ.length = θt.length) :
+    DQN.soft_update (self_tau := τ) θ θt = (θ, blend τ θ θt) ∧
+    CQN.soft_update (self_tau := τ) θ θt = (θ, blend τ θ θt) ∧
+    Rainbow.soft_update (self_tau := τ) θ θt = (θ, blend τ θ θt) ∧
+    DDPG.soft_update (self_tau := τ) θ θt = (θ, blend τ θ θt) ∧
+    TD3.soft_update (self_tau := τ) θ θt = (θ, blend τ θ θt) ∧
+    MADDPG.soft_update (self_tau := τ) θ θt = (θ, blend τ θ θt) ∧
+    MATD3.soft_update (self_tau := τ) θ θt = (θ, blend τ θ θt) ∧
+    ∀ (i : Nat) (e t : Rat), θ[i]? = some e → θt[i]? = some t →
+      (DQN.soft_update (self_tau := τ) θ θt).2[i]? = some (τ * e + (1 - τ) * t) := by
+  have hb := blendK_eq_blend τ θ θt (by omega)
+  refine ⟨?_, ?_, ?_, ?_, ?_, ?_, ?_, ?_⟩
+  · rw [gen_dqn_soft_update_eq, hb]
+  · rw [gen_cqn_soft_update_eq, hb]
+  · rw [gen_rainbow_soft_update_eq, hb]
+  · rw [gen_ddpg_soft_update_eq, hb]
+  · rw [gen_td3_soft_update_eq, hb]
+  · rw [gen_maddpg_soft_update_eq, hb]
+  · rw [gen_matd3_soft_update_eq, hb]
+  · intro i e t he ht
+    rw [gen_dqn_soft_update_eq, hb]
+    exact blend_getElem? τ θ θt i e t he ht
+
+open BellmanGen in
+/-- which networks a learn step's soft updates touch, read off the source: exactly the TARGET
+    entries of the learner's (online, target) pairs — every other entry of the network state,
+    in particular every online network, is left as it was (single-agent learners; for the
+    multi-agent ones see `gen_maddpg_soft_updates_eq`, `gen_matd3_soft_updates_eq`: for every
+    agent `j < n_agents` and nothing else) -/
+theorem C08_source_translation_soft_updates_frame (τ : Rat) (s : Nets) (a : String) (j : Nat) :
+    (¬ (a = "actor_target" ∧ j = 0) →
+      DQN.soft_updates (self_tau := τ) s a j = s a j ∧ CQN.soft_updates (self_tau := τ) s a j = s a j ∧
+      Rainbow.soft_updates (self_tau := τ) s a j = s a j) ∧
+    (¬ (a = "actor_target" ∧ j = 0) → ¬ (a = "critic_target" ∧ j = 0) →
+      DDPG.soft_updates (self_tau := τ) s a j = s a j) ∧
+    (¬ (a = "actor_target" ∧ j = 0) → ¬ (a = "critic_target_1" ∧ j = 0) →
+      ¬ (a = "critic_target_2" ∧ j = 0) → TD3.soft_updates (self_tau := τ) s a j = s a j) ∧
+    (∀ n, a ≠ "actor_targets" → a ≠ "critic_targets" →
+      MADDPG.soft_updates (self_tau := τ) (n_agents := n) s a j = s a j) ∧
+    (∀ n, a ≠ "actor_targets" → a ≠ "critic_targets_1" → a ≠ "critic_targets_2" →
+      MATD3.soft_updates (self_tau := τ) (n_agents := n) s a j = s a j) := by
+  refine ⟨?_, ?_, ?_, ?_, ?_⟩
+  · intro h
+    simp only [gen_dqn_soft_updates_eq, gen_cqn_soft_updates_eq, gen_rainbow_soft_updates_eq, Nets.put,
+      if_neg h, and_self]
+  · intro h1 h2
+    simp only [gen_ddpg_soft_updates_eq, Nets.put, if_neg h1, if_neg h2]
+  · intro h1 h2 h3
+    simp only [gen_td3_soft_updates_eq, Nets.put, if_neg h1, if_neg h2, if_neg h3]
+  · intro n h1 h2
+    simp only [gen_maddpg_soft_updates_eq, maddpgAt, if_neg h1, if_neg h2, ite_self]
+  · intro n h1 h2 h3
+    simp only [gen_matd3_soft_updates_eq, matd3At, if_neg h1, if_neg h2, if_neg h3, ite_self]
+
+open BellmanGen in
+/-- the policy-delay condition as the source states it: DDPG and TD3 run their soft updates on
+    the learn steps whose incremented `learn_counter` is a multiple of `policy_freq`; MATD3 decides
+    on the incremented counter of the LAST agent of `agent_ids`; DQN, CQN, RainbowDQN and MADDPG
+    update on every learn step; every counter advances by one per learn step -/
+theorem C08_source_translation_delay_schedule (c pf : Nat) :
+    (DDPG.updates_on (self_learn_counter := c) (self_policy_freq := pf) = true ↔ (c + 1) % pf = 0) ∧
+    (TD3.updates_on (self_learn_counter := c) (self_policy_freq := pf) = true ↔ (c + 1) % pf = 0) ∧
+    (MATD3.updates_on (self_learn_counter_last := c) (self_policy_freq := pf) = true ↔ (c + 1) % pf = 0) ∧
+    DQN.updates_on = true ∧ CQN.updates_on = true ∧ Rainbow.updates_on = true ∧ MADDPG.updates_on = true ∧
+    DDPG.learn_counter_after (self_learn_counter := c) = c + 1 ∧
+    TD3.learn_counter_after (self_learn_counter := c) = c + 1 ∧
+    MATD3.learn_counter_after (self_learn_counter_i := c) = c + 1 := by
+  refine ⟨?_, ?_, ?_, ?_, ?_, ?_, ?_, gen_ddpg_learn_counter_after_eq c, gen_td3_learn_counter_after_eq c,
+    gen_matd3_learn_counter_after_eq c⟩
+  · rw [gen_ddpg_updates_on_eq]; exact fires_iff pf c
+  · rw [gen_td3_updates_on_eq]; exact fires_iff pf c
+  · rw [gen_matd3_updates_on_eq]; exact fires_iff pf c
+  · rw [gen_dqn_updates_on_eq 0]; simp [fires]
+  · rw [gen_cqn_updates_on_eq 0]; simp [fires]
+  · rw [gen_rainbow_updates_on_eq 0]; simp [fires]
+  · rw [gen_maddpg_updates_on_eq 0]; simp [fires]
+
+open BellmanGen in
+/-- target tracking over ANY number of consecutive learn steps of the generated code (the
+    optimiser sets the online weights before each step; here they are held fixed at `θ`): for every
+    (online, target) pair of every learner — for MADDPG / MATD3 for every agent `k < n_agents` — the
+    step counter advances by `m`, and the target has received exactly `(c+m)/policy_freq − c/policy_freq`
+    soft updates (`m` for the learners without delay), i.e. it equals
+    `θ + (1−τ)^updates · (previous − θ)`.  For arbitrary online weights per step see
+    `gen_*_run_eq` (= `runTargets` of the model). -/
+theorem C08_source_translation_target_tracking (τ : Rat) (pf : Nat) (θ : List Rat) (m c : Nat) (s : Nets) :
+    (θ.length = (s "actor_target" 0).length →
+      (genRun (fun _ s => DQN.learn_nets (self_tau := τ) s) (fun c => c + 1) "actor" 0 c
+        (List.replicate m θ) s).2 "actor_target" 0 = closedN τ θ m (s "actor_target" 0) ∧
+      (genRun (fun _ s => CQN.learn_nets (self_tau := τ) s) (fun c => c + 1) "actor" 0 c
+        (List.replicate m θ) s).2 "actor_target" 0 = closedN τ θ m (s "actor_target" 0) ∧
+      (genRun (fun _ s => Rainbow.learn_nets (self_tau := τ) s) (fun c => c + 1) "actor" 0 c
+        (List.replicate m θ) s).2 "actor_target" 0 = closedN τ θ m (s "actor_target" 0)) ∧
+    (∀ p ∈ [("actor", "actor_target"), ("critic", "critic_target")], θ.length = (s p.2 0).length →
+      (genRun (fun c s => DDPG.learn_nets (self_learn_counter := c) (self_policy_freq := pf) (self_tau := τ) s)
+        (fun c => DDPG.learn_counter_after (self_learn_counter := c)) p.1 0 c (List.replicate m θ) s).1 = c + m ∧
+      (genRun (fun c s => DDPG.learn_nets (self_learn_counter := c) (self_policy_freq := pf) (self_tau := τ) s)
+        (fun c => DDPG.learn_counter_after (self_learn_counter := c)) p.1 0 c (List.replicate m θ) s).2 p.2 0
+        = closedN τ θ ((c + m) / pf - c / pf) (s p.2 0)) ∧
+    (∀ p ∈ [("actor", "actor_target"), ("critic_1", "critic_target_1"), ("critic_2", "critic_target_2")],
+      θ.length = (s p.2 0).length →
+      (genRun (fun c s => TD3.learn_nets (self_learn_counter := c) (self_policy_freq := pf) (self_tau := τ) s)
+        (fun c => TD3.learn_counter_after (self_learn_counter := c)) p.1 0 c (List.replicate m θ) s).1 = c + m ∧
+      (genRun (fun c s => TD3.learn_nets (self_learn_counter := c) (self_policy_freq := pf) (self_tau := τ) s)
+        (fun c => TD3.learn_counter_after (self_learn_counter := c)) p.1 0 c (List.replicate m θ) s).2 p.2 0
+        = closedN τ θ ((c + m) / pf - c / pf) (s p.2 0)) ∧
+    (∀ n k, k < n → ∀ p ∈ [("actors", "actor_targets"), ("critics", "critic_targets")],
+      θ.length = (s p.2 k).length →
+      (genRun (fun _ s => MADDPG.learn_nets (self_tau := τ) (n_agents := n) s) (fun c => c + 1) p.1 k c
+        (List.replicate m θ) s).2 p.2 k = closedN τ θ m (s p.2 k)) ∧
+    (∀ n k, k < n → ∀ p ∈ [("actors", "actor_targets"), ("critics_1", "critic_targets_1"),
+        ("critics_2", "critic_targets_2")], θ.length = (s p.2 k).length →
+      (genRun (fun c s => MATD3.learn_nets (self_learn_counter_last := c) (self_policy_freq := pf)
+          (self_tau := τ) (n_agents := n) s)
+        (fun c => MATD3.learn_counter_after (self_learn_counter_i := c)) p.1 k c (List.replicate m θ) s).1 = c + m ∧
+      (genRun (fun c s => MATD3.learn_nets (self_learn_counter_last := c) (self_policy_freq := pf)
+          (self_tau := τ) (n_agents := n) s)
+        (fun c => MATD3.learn_counter_after (self_learn_counter_i := c)) p.1 k c (List.replicate m θ) s).2 p.2 k
+        = closedN τ θ ((c + m) / pf - c / pf) (s p.2 k)) := by
+  have one : (c + m) / 1 - c / 1 = m := by simp
+  refine ⟨?_, ?_, ?_, ?_, ?_⟩
+  · intro h
+    have h1 := (gen_dqn_run_fixed τ _ (List.mem_singleton.mpr rfl) θ m c s h).2.2
+    have h2 := (gen_cqn_run_fixed τ _ (List.mem_singleton.mpr rfl) θ m c s h).2.2
+    have h3 := (gen_rainbow_run_fixed τ _ (List.mem_singleton.mpr rfl) θ m c s h).2.2
+    rw [one] at h1 h2 h3
+    exact ⟨h1, h2, h3⟩
+  · intro p hp h
+    have := gen_ddpg_run_fixed τ pf p hp θ m c s h
+    exact ⟨this.1, this.2.2⟩
+  · intro p hp h
+    have := gen_td3_run_fixed τ pf p hp θ m c s h
+    exact ⟨this.1, this.2.2⟩
+  · intro n k hk p hp h
+    have := (gen_maddpg_run_fixed τ n k hk p hp θ m c s h).2.2
+    rw [one] at this
+    exact this
+  · intro n k hk p hp h
+    have := gen_matd3_run_fixed τ pf n k hk p hp θ m c s h
+    exact ⟨this.1, this.2.2⟩
+
+-- non-vacuity of the source-translation statements: concrete weights, counters, rows (generated code evaluated)
+example : BellmanGen.TD3.soft_update (1/4) [1, 2] [5, 6] = ([1, 2], [4, 5]) := by decide +kernel
+example : (genRun (fun c s => BellmanGen.DDPG.learn_nets c 2 (1/2) s) (fun c => BellmanGen.DDPG.learn_counter_after c)
+    "critic" 0 0 (List.replicate 4 [0]) (fun a _ => if a = "critic_target" then [8] else [1])).2 "critic_target" 0 = [2] := by
+  decide +kernel
+example : BellmanGen.MATD3.target 1 1 7 5 3 = 7 ∧ BellmanGen.MATD3.target 1 0 7 5 3 = 10 := by decide +kernel
 
 end Bellman
